@@ -281,7 +281,6 @@ fn deep_single_calls(rep: &mut Report) {
         let mref = &m;
         let fref = &f;
         let r = std::thread::scope(|sc| std::thread::Builder::new().stack_size(256 * 1024).spawn_scoped(sc, move || catch(|| fref(mref))).map(|h| h.join()));
-        CRASH_ATTRIBUTION.store(false, std::sync::atomic::Ordering::SeqCst);
         rep.count("deep_single_calls", 1);
         match r {
             Ok(Ok(Ok(true))) => rep.key_str(&format!("{}→ok", call)),
@@ -409,6 +408,9 @@ fn helpers_two(a: &str, b: &str, rep: &mut Report) {
 }
 
 fn c12(ctx: &Ctx, rep: &mut Report) {
+    // every call here is a monitored call of the code under test: a worker killed inside one (abort, stack exhaustion)
+    // leaves a crash record naming it
+    CRASH_ATTRIBUTION.store(true, std::sync::atomic::Ordering::SeqCst);
     std::env::set_var("HOME", "/a");
     let max1 = if ctx.thorough { 4 } else { 3 };
     let max2 = if ctx.thorough { 3 } else { 2 };
